@@ -1,6 +1,7 @@
 package gen
 
 import (
+	"fmt"
 	"strings"
 
 	"gtverif/model"
@@ -271,3 +272,48 @@ func DistinctRoots(f model.Forest) {
 		seen[r.Name] = true
 	}
 }
+
+// WideDup: one root with w distinct children k0..k(w-1); afterwards the names at the given
+// positions are written AGAIN as children of the root, each with a grandchild of its own (they
+// must be merged into the first occurrence, whatever w is).
+func WideDup(w int, dupAt []int) (depths []int, names []string) {
+	depths, names = []int{1}, []string{"wide"}
+	for i := 0; i < w; i++ {
+		depths = append(depths, 2)
+		names = append(names, "k"+itoa(i))
+	}
+	for _, p := range dupAt {
+		if p < 0 || p >= w {
+			continue
+		}
+		depths = append(depths, 2, 3)
+		names = append(names, "k"+itoa(p), "under-the-repeated-k"+itoa(p))
+	}
+	// a GRANDCHILD and, later, a direct child of the wide node with the same name: two nodes
+	depths = append(depths, 2, 3, 2, 3)
+	names = append(names, "k0", "cousin", "cousin", "child-of-the-direct-cousin")
+	return
+}
+
+// DeepMixed: a spine of the given depth; at every level the spine node has a leaf sibling that
+// comes before it on even levels and after it on odd levels, so that last / not-last ancestors
+// alternate all the way down.
+func DeepMixed(depth int) (depths []int, names []string) {
+	var f model.Forest
+	root := &model.Node{Name: "spine0"}
+	f = append(f, root)
+	cur := root
+	for d := 1; d < depth; d++ {
+		next := &model.Node{Name: "spine" + itoa(d%10)}
+		leaf := &model.Node{Name: "leaf" + itoa(d%7)}
+		if d%2 == 0 {
+			cur.Kids = append(cur.Kids, leaf, next)
+		} else {
+			cur.Kids = append(cur.Kids, next, leaf)
+		}
+		cur = next
+	}
+	return Depths(f)
+}
+
+func itoa(i int) string { return fmt.Sprint(i) }
